@@ -1569,8 +1569,39 @@ def w16(facts, tier):
                 continue
             if p not in cps and any(q[0] == p[0] for q in cps):
                 bad.append(f"elements of `{'.'.join(p)}` are written although the count is that of `{'.'.join(sorted(cps)[0])}`")
+        # between the count and the elements nothing may leave the function with success, except when the count is zero
+        from ..flow import parent_map as _pm
+        pm = _pm(g["body"])
+        first_count = counts[0][1]
+        order = {id(n_): i for i, n_ in enumerate(walk(g["body"]))}
+        loops = [x_ for _, x_ in iters]
+        for r_ in walk(g["body"]):
+            if r_.get("k") != "Return" or r_.get("e") is None:
+                continue
+            e_ = peel_block(peel(r_["e"]))
+            if not (e_.get("k") == "Adt" and e_.get("variant") == "Ok"):
+                continue
+            if order.get(id(r_), 0) < order.get(id(first_count), 0):
+                continue
+            if loops and all(order.get(id(lp), 0) < order.get(id(r_), 0) for lp in loops):
+                continue      # after the element loops
+            # the guard of this early success
+            conds = []
+            p_, ch_ = pm.get(id(r_)), r_
+            while p_ is not None:
+                if p_.get("k") == "If" and any(ch_ is y_ for y_ in walk(p_["t"])):
+                    conds.append(p_["c"])
+                ch_, p_ = p_, pm.get(id(p_))
+            def about_count(c_):
+                txt = [y_ for y_ in walk(c_) if (y_.get("k") == "Call" and (callee(y_) or "").endswith(("::len", "::is_empty")))
+                       or (y_.get("k") == "Var" and any(y_["v"] == (peel(cx["args"][1]).get("v") if len(cx.get("args", [])) > 1 else None) for _, cx in counts))]
+                return bool(txt)
+            if not any(about_count(c_) for c_ in conds):
+                what = "; ".join(sorted({(callee(y_) or "").rsplit("::", 1)[-1] for c_ in conds for y_ in walk(c_) if y_.get("k") == "Call"})) or "an unrelated condition"
+                bad.append(f"after the element count has been written the function returns Ok without writing the elements when `{what}` holds "
+                           f"(not a test of the count): the reader still reads that many elements")
         undecided = any("?" in p for p, _ in counts)
         yield ob(["C01", "C02"], "W16", g["id"], "violation" if bad else ("undecided" if undecided else "pass"), where(g, counts[0][1]),
-                 f"{g['id']}: " + ("; ".join(sorted(set(bad))[:2]) + ": the stored count and the stored elements disagree for a container whose "
-                                   "storage is split (a wrapped VecDeque)" if bad else
+                 f"{g['id']}: " + ("; ".join(sorted(set(bad))[:2]) + (": the stored count and the stored elements disagree for a container whose "
+                                   "storage is split (a wrapped VecDeque)" if any("part of" in b_ or "elements of" in b_ for b_ in bad) else "") if bad else
                                    f"count and elements are those of `{'.'.join(sorted(cps)[0])}`"))
